@@ -740,6 +740,9 @@ def eig(ctx, A, left = False, right = True, overwrite_a = False):
         if right and (not left):
             return ([A[0]], ctx.matrix([[1]]))
 
+        if not (left or right):
+            return [A[0]]
+
         return ([A[0]], ctx.matrix([[1]]), ctx.matrix([[1]]))
 
     if not overwrite_a:
